@@ -88,7 +88,12 @@ def execute(trace, ctx=None):
                 else:
                     continue
             except LibError as e:
-                raise Violation("exception", f"{route}:{label}", e.site, {"error": repr(e.exc), "op": kind})
+                # a member indicator that raises on its input is C09's subject; conversion / manager
+                # failures are this property's
+                if any(f in e.site for f in ("candlestick_type.py", "heikinashi.py", "candle.py",
+                                             "candle_manager.py", "hexital.py", "timeframe.py", "StepBudget")):
+                    raise Violation("exception", route, e.site, {"error": repr(e.exc), "op": kind})
+                raise Discard("member-indicator-raised:" + e.type)
             candles = view()
             raw = refmodels.resample(delivered, tf_s) if tf_s else [list(r) for r in delivered]
             want = refmodels.heikin_ashi(raw)
